@@ -101,8 +101,5 @@ def obligations(tier, seed):
 
 
 def gates(tier, seed):
-    from vlib.harness import scan_original_buffer
-    reads = scan_original_buffer()
-    if reads:
-        raise AssertionError("M7 side condition violated: original_buffer is read at %s" % reads)
-    return {"m7_original_buffer_reads": reads}
+    from .gates import container_gates
+    return container_gates(tier, seed)
